@@ -211,18 +211,31 @@ func (r *breader) readCode(c *Code) {
 		&c.name,
 		&sz,
 	)
+	// The sizes come from the input: consume the budget and check them
+	// against what is left of the input before allocating.
+	r.consumeBudget(4 * uint64(sz))
+	if !r.checkCount(sz, 4) {
+		return
+	}
 	c.code = make([]code.Opcode, sz)
 	r.read(
-		4*uint64(sz)+8,
+		8,
 		c.code,
 		&sz,
 	)
+	r.consumeBudget(4 * uint64(sz))
+	if !r.checkCount(sz, 4) {
+		return
+	}
 	c.lines = make([]int32, sz)
 	r.read(
-		4*uint64(sz)+8,
+		8,
 		c.lines,
 		&sz,
 	)
+	if !r.checkCount(sz, 1) {
+		return
+	}
 	c.consts = make([]Value, sz)
 	for i := range c.consts {
 		c.consts[i] = r.readConst()
@@ -234,10 +247,33 @@ func (r *breader) readCode(c *Code) {
 		&c.CellCount,
 		&sz,
 	)
+	if !r.checkCount(sz, 8) {
+		return
+	}
 	c.UpNames = make([]string, sz)
 	for i := range c.UpNames {
 		c.UpNames[i] = r.readString()
 	}
+}
+
+// checkCount is called with a number of items read from the input, each of
+// which takes at least itemSize bytes of it.  It sets r.err and returns false
+// if the count is negative, or larger than what the rest of the input can hold
+// when the reader can tell how much is left (bytes.Buffer, bytes.Reader and
+// strings.Reader can).
+func (r *breader) checkCount(n int64, itemSize int64) bool {
+	if r.err != nil {
+		return false
+	}
+	if n < 0 {
+		r.err = errInvalidSize
+		return false
+	}
+	if lr, ok := r.r.(interface{ Len() int }); ok && n > int64(lr.Len())/itemSize {
+		r.err = io.ErrUnexpectedEOF
+		return false
+	}
+	return true
 }
 
 func (r *breader) read(sz uint64, xs ...interface{}) {
@@ -268,6 +304,9 @@ func (r *breader) readString() (s string) {
 		return
 	}
 	r.consumeBudget(uint64(sl))
+	if !r.checkCount(sl, 1) {
+		return
+	}
 	b := make([]byte, sl)
 	_, r.err = r.r.Read(b)
 	if r.err == nil {
@@ -287,3 +326,4 @@ func (r *breader) consumeBudget(amount uint64) {
 }
 
 var errInvalidValueType = errors.New("Invalid value type")
+var errInvalidSize = errors.New("Invalid size")
